@@ -75,7 +75,7 @@ func Registry(prop, tier string) []UniverseDef {
 		keep := map[string]bool{"compound[u64,u64,str]/LONG": true, "compound[u64,u64,str]/VALS": true, "compound[u8,str]/LONGSTR": true, "compound[u64,u16,u8,raw]/LENPFX": true, "compound[u8,str]/PRODUCT": true,
 			"compound[i16,f32]/PRODUCT": true, "compound[f64,u8,str]/PRODUCT": true, "compound[int,i8]/PRODUCT": true}
 		for _, d := range CompoundRegistry("thorough") {
-			if keep[d.Name] {
+			if keep[d.Name] || strings.Contains(d.Name, "/CFAN") {
 				out = append(out, d)
 			}
 		}
@@ -105,6 +105,19 @@ func Registry(prop, tier string) []UniverseDef {
 			}
 		}
 	}
+	// 64 KiB keys: every query and every image costs a few hundred kilobytes; the properties whose monitors compare whole
+	// images or run quadratic query suites per state take them on string keys in the thorough tier only
+	{
+		cheap := map[string]bool{"C01": true, "C02": true, "C05": true, "C06": true, "C11": true}
+		var keep []UniverseDef
+		for _, d := range out {
+			if strings.HasSuffix(d.Name, "/HUGE") && !cheap[prop] && !(tier == "thorough" && strings.HasPrefix(d.Name, "alpha[string]")) {
+				continue
+			}
+			keep = append(keep, d)
+		}
+		out = keep
+	}
 	if prop == "C14" && tier != "thorough" {
 		// quick tier: the stop-position x re-iteration x nesting suite is quadratic in the tree size;
 		// the big fan-out windows and the byte sweeps stay in the thorough tier for this property
@@ -132,13 +145,13 @@ func FindUniverse(prop, tier, name string) (*Universe, error) {
 }
 
 func ConfigFor(prop, tier string) Config {
-	c := Config{Tier: tier, RawVariants: 4, Poison: true, Warm: true, Drain: true, MaxStates: 400000}
+	c := Config{Tier: tier, RawVariants: 4, Poison: true, Warm: true, Drain: true, Churn: 70, MaxStates: 400000}
 	if tier == "thorough" {
 		c.RawVariants = 16
 		c.MaxStates = 3000000
 	}
 	if prop == "C18" {
-		c.GC, c.Poison, c.Warm, c.Drain, c.RawVariants = true, false, false, false, 1
+		c.GC, c.Poison, c.Warm, c.Drain, c.RawVariants, c.Churn = true, false, false, false, 1, 0
 	}
 	return c
 }
